@@ -142,7 +142,9 @@ fn ns_plain_one_line(s: &[u8]) -> bool {
         }
         prev = c;
     }
-    true
+    // white space is allowed only between other characters:
+    // at the end of a plain scalar, it would not be read as part of it
+    !s_white(prev)
 }
 
 fn must_quote(s: &[u8]) -> bool {
@@ -160,7 +162,10 @@ fn must_quote(s: &[u8]) -> bool {
     let kws = kws.map(|a| a.map(str::as_bytes));
 
     // https://yaml.org/spec/1.2.2/#912-document-markers
-    let is_doc_marker = |s: &[u8]| matches!(s, b"---" | b"...");
+    // a marker at the start of a line ends where white space begins
+    let is_doc_marker = |s: &[u8]| {
+        (s.starts_with(b"---") || s.starts_with(b"...")) && s.get(3).map_or(true, |c| b" \t".contains(c))
+    };
 
     // number overapproximation; the reader accepts a sign, an empty integer part (`.5`) and
     // signed infinities (`-.inf`)
